@@ -556,15 +556,84 @@ func sortedAfterLoop(phi *ssa.Phi, header *ssa.BasicBlock) bool {
 		if _, isDbg := in.(*ssa.DebugRef); isDbg {
 			continue
 		}
-		usedOutside = true
 		if c, ok := in.(ssa.CallInstruction); ok {
 			n := calleeName(c.Common())
 			if strings.HasPrefix(n, "sort.") || strings.HasPrefix(n, "slices.Sort") {
 				sorted = true
+				usedOutside = true
+				continue
+			}
+			if bi, isB := c.Common().Value.(*ssa.Builtin); isB && (bi.Name() == "len" || bi.Name() == "cap") {
+				continue
+			}
+			// handed to a module function that only turns the list into a set (or measures it): the order is not observed
+			if g := c.Common().StaticCallee(); g != nil && InModule(g) && g.Blocks != nil {
+				all := true
+				for i, a := range c.Common().Args {
+					if a == ssa.Value(phi) && (i >= len(g.Params) || !sliceParamOnlyFeedsSet(g.Params[i])) {
+						all = false
+					}
+				}
+				if all {
+					continue
+				}
 			}
 		}
+		usedOutside = true
 	}
 	return !usedOutside || sorted
+}
+
+// sliceParamOnlyFeedsSet: the slice parameter is only measured and read element by element into map keys (a set is built from
+// it): nothing the function computes depends on the order of its elements.
+func sliceParamOnlyFeedsSet(prm *ssa.Parameter) bool {
+	if prm.Referrers() == nil {
+		return true
+	}
+	for _, rf := range *prm.Referrers() {
+		switch x := rf.(type) {
+		case *ssa.DebugRef:
+		case *ssa.Call:
+			bi, ok := x.Call.Value.(*ssa.Builtin)
+			if !ok || (bi.Name() != "len" && bi.Name() != "cap") {
+				return false
+			}
+		case *ssa.IndexAddr:
+			if x.Referrers() == nil {
+				continue
+			}
+			for _, r2 := range *x.Referrers() {
+				ld, ok := r2.(*ssa.UnOp)
+				if !ok {
+					if _, isDbg := r2.(*ssa.DebugRef); isDbg {
+						continue
+					}
+					return false
+				}
+				if ld.Referrers() == nil {
+					continue
+				}
+				for _, r3 := range *ld.Referrers() {
+					switch y := r3.(type) {
+					case *ssa.DebugRef:
+					case *ssa.MapUpdate:
+						if y.Key != ssa.Value(ld) {
+							return false
+						}
+					case *ssa.Lookup:
+						if y.Index != ssa.Value(ld) {
+							return false
+						}
+					default:
+						return false
+					}
+				}
+			}
+		default:
+			return false
+		}
+	}
+	return true
 }
 
 // foreignGlobalRoot: the address (or slice/map value) v leads, through field/index/slice steps and loads, to a package-level
@@ -925,7 +994,7 @@ func checkWiringMapRanges(p *Prog, r *Report, kp func(string, string) string) {
 	if nBad == 0 {
 		r.OK(kp("ORDER", "wiring-range-over-map#none"), "a range over a Go map in the application's set-up code has an order-insensitive body", "app/", fmt.Sprintf("%d map ranges in app/, all order-insensitive", n))
 	}
-	r.Floor("map-ranges-in-app-wiring", n, 2)
+	r.Floor("map-ranges-in-app-wiring", n, 1)
 }
 
 
